@@ -128,3 +128,15 @@ func (in *Input) CfgStr(k string, def string) string {
 	}
 	return def
 }
+
+// Ints reads a list-of-integers config value.
+func (in *Input) Ints(k string) []int {
+	arr, _ := in.Config[k].([]any)
+	out := make([]int, 0, len(arr))
+	for _, x := range arr {
+		if f, ok := x.(float64); ok {
+			out = append(out, int(f))
+		}
+	}
+	return out
+}
